@@ -5,9 +5,11 @@ from vmon.smiles_reader import (read_smiles, read_segmented, has_long_percent_ru
                                 SmilesSyntaxError, SegmentationBudget)
 
 
-def roundtrip(ctx, sf, s, table, check_stereo, src, payload_extra=None):
+def roundtrip(ctx, sf, s, table, check_stereo, src, payload_extra=None, _again=False):
     """Returns (status, min, mout, selfies).  status in:
-    'ok', 'gen_bug', 'enc_reject', 'violation'."""
+    'ok', 'gen_bug', 'enc_reject', 'violation'.
+    Besides the plain strict call, a fraction of the inputs is also encoded with the other flag combinations (the
+    SELFIES string must not depend on them) and translated a second time (a repeated call must repeat its result)."""
     payload = {"smiles": s if len(s) < 3000 else s[:3000] + "...", "table": table, "src": src}
     if len(s) >= 3000:
         payload["smiles_full"] = s
@@ -29,6 +31,14 @@ def roundtrip(ctx, sf, s, table, check_stereo, src, payload_extra=None):
         ctx.finding("escape:%s@%s" % (r[1], r[2]), payload, r[3])
         return "violation", min_, None, None
     x = r[1]
+    if not _again and ctx.rng.random() < 0.25:
+        for fl in ({"strict": False}, {"attribute": True}, {"strict": False, "attribute": True}):
+            r2 = call_guard(lambda: sf.encoder(s, **fl), expected=(sf.EncoderError,))
+            got = r2[1][0] if (r2[0] == "ok" and fl.get("attribute")) else (r2[1] if r2[0] == "ok" else None)
+            ctx.count("encoder_flag_variants")
+            if got != x:
+                ctx.finding("encoder-flags-change-the-output", dict(payload, flags=fl, selfies=x[:1000]),
+                            "encoder(s) = %r but encoder(s, %r) = %r" % (x[:200], fl, repr(r2)[:200]))
     d = call_guard(lambda: sf.decoder(x), expected=(sf.DecoderError,))
     for mon, msg in MON.drain():
         ctx.finding("monitor-" + mon, dict(payload, selfies=x[:2000]), msg)
@@ -58,6 +68,14 @@ def roundtrip(ctx, sf, s, table, check_stereo, src, payload_extra=None):
             return "violation", min_, None, x
     diff = compare_roundtrip(min_, mout, check_stereo=check_stereo)
     if diff is not None:
-        ctx.finding("roundtrip-" + diff[0], dict(payload, selfies=x[:2000], output=out[:2000]), diff[1])
+        ctx.finding("roundtrip-" + diff[0] + ("-on-repeated-call" if _again else ""),
+                    dict(payload, selfies=x[:2000], output=out[:2000]), diff[1])
         return "violation", min_, mout, x
+    if not _again and ctx.rng.random() < 0.15:
+        # the very same input once more: same SELFIES, same molecule
+        ctx.count("repeated_translations")
+        st2, _, _, x2 = roundtrip(ctx, sf, s, table, check_stereo, src, payload_extra, _again=True)
+        if st2 == "ok" and x2 != x:
+            ctx.finding("repeated-call-differs", dict(payload, first=x[:1000], second=(x2 or "")[:1000]),
+                        "encoder returned two different strings for the same input")
     return "ok", min_, mout, x
